@@ -51,7 +51,7 @@ def relock(run_symbolic, all_props):
         ex_obs, _ = extras.run(p, 'quick', 0)
         names = set(by_prop[p])
         for o in ex_obs:
-            if p in o['props']:
+            if p in o['props'] and not (o.get('info') or {}).get('soft'):
                 names.add(o['name'])
         lock['props'][p] = sorted(names)
         rel = set()
@@ -152,9 +152,17 @@ def check_property(prop, tier, seed, run_symbolic, lock, verbose=False, jobs=Non
                'cases': ores.get('cases', 0), 'failures': ores.get('n_failures', 0), 'counted_as_proved': False,
                'oracle_error': ores.get('oracle_error') or (orc.get('stderr') if not ores else None)}
     extra_info.setdefault('bounded_standins', []).append(standin)
-    if ores.get('failures') and not violations:
+    # failing inputs that are exactly the recorded probes of a known finding are that finding, nothing else is
+    probe_ids = {f['id'] for f in known if f.get('oracle_probe') and f.get('property') == prop}
+    for x in (ores.get('failures') or []):
+        if x.get('known_id') in probe_ids and x['known_id'] not in matched_ids:
+            matched_ids.append(x['known_id'])
+    new_failures = [x for x in (ores.get('failures') or []) if x.get('known_id') not in probe_ids]
+    standin['failures'] = len(new_failures) if ores.get('n_failures', 0) <= len(ores.get('failures') or []) else ores.get('n_failures', 0)
+    standin['failures_that_are_known_findings'] = len(ores.get('failures') or []) - len(new_failures)
+    if new_failures and not violations:
         rp = replay.attempt(prop, 'bounded-standin:%s:failing-input-on-the-real-code' % prop,
-                            {'func': 'sqv/native/oracles.py', 'path': '', 'model': ores['failures'][0], 'info': {}, 'static': True},
+                            {'func': 'sqv/native/oracles.py', 'path': '', 'model': new_failures[0], 'info': {}, 'static': True},
                             eng.src.repo)
         violations.append(('bounded-standin:%s:failing-input-on-the-real-code' % prop, rp))
     if tier == 'thorough':
